@@ -11,6 +11,8 @@ func TestVerifReplay(t *testing.T) {
 		"Verif_C15_Structure":        Verif_C15_Structure,
 		"Verif_C15_Structure3":       Verif_C15_Structure3,
 		"Verif_C15_Leaf":             Verif_C15_Leaf,
+		"Verif_C15_Chain":            Verif_C15_Chain,
+		"Verif_C12_TagsLong":         Verif_C12_TagsLong,
 		"Verif_C12_Tags":             Verif_C12_Tags,
 		"Verif_C12_TagsMarker":       Verif_C12_TagsMarker,
 		"Verif_C12_TagsUTF8":         Verif_C12_TagsUTF8,
